@@ -335,6 +335,10 @@ def delete_walk_guard(ctx, rule='C10.delete-walk-guard'):
                 fl = direct_flag(g, du, dl)
                 if fl and fl[0] in ('InnerBucket', 'Node') and fl[2] == 'bool':
                     badf.add((fl[0], fl[1]))
+            # any other field of the bucket header in the guard ("it never held anything": next_int == 0) is a proxy that is false for some committed buckets
+            for (ad, nm) in fields:
+                if ad == 'BucketMeta' and nm != 'root_page':
+                    badf.add((ad, nm))
         if badf:
             res.append(bad(rule, '%s | page walk guarded by %s' % (fn.qual, ','.join(sorted('%s.%s' % f2 for f2 in badf))),
                            'in %s the walk that frees a deleted bucket\'s committed pages (%s) is guarded by %s instead of only by "the bucket has a committed root page": a committed bucket for which '
@@ -407,6 +411,8 @@ def run(ctx, tier):
     results += release_per_entry(ctx)
     results += delete_walk_guard(ctx)
     results += walk_frees_visited(ctx)
+    results += c03.sorted_registry(ctx, rule='C10.sorted-registry')
+    results += c03.snapshot_fixed(ctx, rule='C10.snapshot-fixed')
     results += c03.register(ctx, rule='C10.register')
     import c06
     results += c06.shared_freelist(ctx, rule='C10.shared-freelist')
